@@ -931,6 +931,24 @@ func exploreF(cfg FCfg, env *Env, opt vsched.Options, post func(h *fh), check fu
 		for _, v := range vs {
 			if !seenSig[v.Signature] {
 				seenSig[v.Signature] = true
+
+				// Before a failure is believed the recorded schedule is replayed twice: the same schedule must
+				// fail the same way every time, otherwise the harness (not the code) is at fault.
+				for i := 0; i < 2; i++ {
+					rr := vsched.Replay(v.Choices, body)
+					same := false
+
+					for _, v2 := range report(rr) {
+						if v2.Signature == v.Signature {
+							same = true
+						}
+					}
+
+					if !same {
+						vsched.Fatalf("NONDETERMINISM: violation %q did not reproduce when its schedule was replayed (scenario %s)", v.Signature, cfg.ID())
+					}
+				}
+
 				res.Violations = append(res.Violations, v)
 			}
 		}
